@@ -18,8 +18,10 @@ CLAIMED = {
         "below tol*|s| (IEEE comparison); a finished run above the tolerance is reported as "
         "DIVERGED/STAGNATED/MAX-ITERATION with exit 1; the loop stops within maxit cycles; "
         "already-good supplied field => nothing run; zero source => zero field, error 0; Krylov: "
-        "success <=> SciPy info 0 without abort, abs_error is the residual of the returned field, "
-        "an abort is always a failure. Tie to code: recorded residual norms / SciPy events of real "
+        "success <=> SciPy info 0 without abort for EVERY info (a break-down, info < 0, is always "
+        "a failure: krylov_breakdown_is_failure; the hypothesis info >= 0 this theorem used to "
+        "carry hid defect f9ccc85, found by running the code at the excluded point), abs_error is "
+        "the residual of the returned field, an abort is always a failure. Tie to code: recorded residual norms / SciPy events of real "
         "solves over the configuration product drive the model; exit, message, it_mg, it_ssl, "
         "abs_error must agree. Clause PEC, plain multigrid: proved on the whole-cycle model "
         "(Emg.mgRun_frame / mgRun_pec: for every configuration, grid, model, source and start "
